@@ -2,15 +2,147 @@
 
 package ackhandler
 
-import "github.com/refraction-networking/uquic/internal/protocol"
+import (
+	"fmt"
+	"reflect"
+	"sync"
+
+	"github.com/refraction-networking/uquic/internal/monotime"
+	"github.com/refraction-networking/uquic/internal/protocol"
+	"github.com/refraction-networking/uquic/internal/utils"
+)
+
+// The hooks of property C14 observe the anti-amplification accounting of a sent packet handler WITHOUT naming
+// any unexported identifier of sent_packet_handler.go (not the struct type, not a field, not a method), so
+// that renaming / regrouping them is not an alarm.  The three pieces of state are found once per process by
+// BEHAVIOURAL PROBES on throw-away handlers made with the exported constructor and driven through the
+// exported SentPacketHandler interface:
+//
+//   - "address validated": the one bool of the handler's state in which a server handler constructed with
+//     clientAddressValidated=true differs from one constructed with clientAddressValidated=false;
+//   - "bytes received":    the one integer that grows by exactly n after ReceivedBytes(n);
+//   - "bytes sent":        the one integer that grows by exactly n after SentPacket(size n) of a packet that
+//     is not ack-eliciting (so it is not counted as in flight).
+//
+// The state is then READ (never written) through package reflect at those positions.  If a probe does not
+// single out exactly one position the hook panics with a message that says so (a harness failure that asks for
+// a look at the hook, not a statement about the property).
+
+type verifAmpLayout struct {
+	typ                   reflect.Type
+	validated, recv, sent []int // reflect index paths inside the handler struct
+}
+
+var (
+	verifAmpOnce sync.Once
+	verifAmpLay  verifAmpLayout
+)
+
+func verifAmpProbeHandler(cav bool) SentPacketHandler {
+	return NewSentPacketHandler(0, 1280, utils.NewRTTStats(), &utils.ConnectionStats{}, cav, false,
+		func(protocol.PacketNumber) {}, protocol.PerspectiveServer, nil, utils.DefaultLogger)
+}
+
+// verifAmpScalars lists the bool / integer leaves of a struct value (nested structs by value included,
+// pointers and interfaces are not followed).
+func verifAmpScalars(v reflect.Value, path []int, out map[string]verifAmpLeaf) {
+	for i := 0; i < v.NumField(); i++ {
+		f := v.Field(i)
+		p := append(append([]int(nil), path...), i)
+		switch f.Kind() {
+		case reflect.Bool:
+			out[fmt.Sprint(p)] = verifAmpLeaf{path: p, isBool: true, b: f.Bool()}
+		case reflect.Int, reflect.Int8, reflect.Int16, reflect.Int32, reflect.Int64:
+			out[fmt.Sprint(p)] = verifAmpLeaf{path: p, n: f.Int()}
+		case reflect.Uint, reflect.Uint8, reflect.Uint16, reflect.Uint32, reflect.Uint64:
+			out[fmt.Sprint(p)] = verifAmpLeaf{path: p, n: int64(f.Uint())}
+		case reflect.Struct:
+			verifAmpScalars(f, p, out)
+		}
+	}
+}
+
+type verifAmpLeaf struct {
+	path   []int
+	isBool bool
+	b      bool
+	n      int64
+}
+
+func verifAmpStruct(sph SentPacketHandler) reflect.Value {
+	v := reflect.ValueOf(sph)
+	for v.Kind() == reflect.Pointer || v.Kind() == reflect.Interface {
+		v = v.Elem()
+	}
+	if v.Kind() != reflect.Struct {
+		panic("verif hook C14: the sent packet handler is not a struct")
+	}
+	return v
+}
+
+func verifAmpSnapshot(sph SentPacketHandler) map[string]verifAmpLeaf {
+	m := map[string]verifAmpLeaf{}
+	verifAmpScalars(verifAmpStruct(sph), nil, m)
+	return m
+}
+
+func verifAmpOne(what string, cands [][]int) []int {
+	if len(cands) != 1 {
+		panic(fmt.Sprintf("verif hook C14: the behavioural probe for %q singles out %d positions of the handler state instead of 1 (%v); the hook harness/hooks/internal/ackhandler/verif_amp.go needs a look", what, len(cands), cands))
+	}
+	return cands[0]
+}
+
+func verifAmpProbe() {
+	const nRecv, nSent = 9173, 7919
+	a, b := verifAmpProbeHandler(false), verifAmpProbeHandler(true)
+	sa, sb := verifAmpSnapshot(a), verifAmpSnapshot(b)
+	var cv [][]int
+	for k, la := range sa {
+		if lb, ok := sb[k]; ok && la.isBool && lb.isBool && !la.b && lb.b {
+			cv = append(cv, la.path)
+		}
+	}
+	lay := verifAmpLayout{typ: verifAmpStruct(a).Type(), validated: verifAmpOne("address validated", cv)}
+	grew := func(before, after map[string]verifAmpLeaf, by int64) [][]int {
+		var c [][]int
+		for k, x := range before {
+			if y, ok := after[k]; ok && !x.isBool && y.n-x.n == by {
+				c = append(c, x.path)
+			}
+		}
+		return c
+	}
+	a.ReceivedBytes(nRecv, monotime.Time(1))
+	s1 := verifAmpSnapshot(a)
+	lay.recv = verifAmpOne("bytes received", grew(sa, s1, nRecv))
+	pn := a.PopPacketNumber(protocol.EncryptionInitial)
+	a.SentPacket(monotime.Time(2), pn, protocol.InvalidPacketNumber, nil, nil, protocol.EncryptionInitial, protocol.ECNNon, nSent, false, false)
+	lay.sent = verifAmpOne("bytes sent", grew(s1, verifAmpSnapshot(a), nSent))
+	verifAmpLay = lay
+}
 
 // VerifAmpState exposes the anti-amplification accounting of a sent packet handler (read only, C14).
 func VerifAmpState(sph SentPacketHandler) (bytesSent, bytesReceived protocol.ByteCount, peerAddressValidated bool) {
-	h := sph.(*sentPacketHandler)
-	return h.bytesSent, h.bytesReceived, h.peerAddressValidated
+	verifAmpOnce.Do(verifAmpProbe)
+	v := verifAmpStruct(sph)
+	if v.Type() != verifAmpLay.typ {
+		panic("verif hook C14: a sent packet handler of another type than the constructor's")
+	}
+	num := func(p []int) protocol.ByteCount {
+		f := v.FieldByIndex(p)
+		if f.CanInt() {
+			return protocol.ByteCount(f.Int())
+		}
+		return protocol.ByteCount(f.Uint())
+	}
+	return num(verifAmpLay.sent), num(verifAmpLay.recv), v.FieldByIndex(verifAmpLay.validated).Bool()
 }
 
-// VerifAmpLimited exposes isAmplificationLimited (read only, C14).
-func VerifAmpLimited(sph SentPacketHandler) bool {
-	return sph.(*sentPacketHandler).isAmplificationLimited()
+// VerifAmpLimited reports whether the handler refuses every kind of sending at time now, judged by its exported
+// behaviour: SendMode(now) == SendNone.  SendMode has no side effect.  The only other reason for SendNone is
+// protocol.MaxTrackedSentPackets tracked packets; the callers (drivers amp, token) stay far below that number
+// of SentPacket calls per handler, so for them this IS "amplification limited" (C14).
+func VerifAmpLimited(sph SentPacketHandler, now monotime.Time) bool {
+	return sph.SendMode(now) == SendNone
 }
